@@ -614,7 +614,12 @@ class Machine:
         self.truth = []            # per account: plaintext secrets when it was added (None once tampered / foreign)
         self.acc_pw = []           # per account: the password it is currently encrypted under (None = plaintext)
         self.disk_pw = []          # the same for the accounts as they are in the wallet file
+        self.wallet_pw = None      # the password the USER gave last to a successful encrypt()/unlock(): the wallet's password
         self.started_encrypted = False   # came up through the daemon start-up path from a file with encrypted accounts
+        self.enc_expected = False  # the monitor's OWN record of "encryption is enabled": encrypt() / a truthy encrypt-on-disk
+        #                            preference set by the user or found in the file / start-up of an encrypted file, until
+        #                            decrypt(), a falsy preference, or the documented reset (save of an unlocked wallet
+        #                            that has no password at all)
         self.open_dbs = []
         self.violations = []
         self.model.call('init', path=hx(self.path), umask=str(UMASK))
@@ -643,6 +648,16 @@ class Machine:
             if k == 'save':
                 w.save()
                 return 'True'
+            if k == 'unlock_during_save':
+                async def both():
+                    async def other_task():          # Account.save_max_gap / a preference write from another request
+                        await asyncio.sleep(0)
+                        w.save()
+                    task = asyncio.ensure_future(other_task())
+                    r = await w.unlock(op['pw'])
+                    await task
+                    return r
+                return str(self.world.loop.run_until_complete(both()))
             if k == 'save_crash':
                 rnd, now = list(ENV.rnd), ENV.now
 
@@ -707,7 +722,7 @@ class Machine:
             m['account'] = op['_model_account']
         if op['k'] == 'set_pref':
             m['value'] = jv(op['value'])
-        if op['k'] in ('encrypt', 'decrypt', 'save', 'start'):
+        if op['k'] in ('encrypt', 'decrypt', 'save', 'start', 'unlock_during_save'):
             m['pid'] = str(os.getpid())
         if op['k'] == 'save_crash':
             m['pid'] = str(op['_pid'])
@@ -718,11 +733,15 @@ class Machine:
         w = self.wallet
         self.pre = {'views': [json.dumps(a.to_dict(), sort_keys=True) for a in w.accounts],
                     'enc': [a.encrypted for a in w.accounts], 'pw': w.encryption_password,
-                    'file': read_file(self.path)}
+                    'file': read_file(self.path), 'wallet_pw': self.wallet_pw, 'file_pref': self.file_pref_value()}
 
     def after(self, op, out):
         w = self.wallet
         k = op['k']
+        if k == 'unlock_during_save':
+            # unlock(pw) with a save() from another task running at unlock's first suspension point: whatever the
+            # interleaving, the user has supplied the password and the save must honour it
+            return self.after(dict(op, k='unlock'), out) + self.after(dict(op, k='save'), 'True')
         bad = []
         if k == 'add':
             a = w.accounts[-1]
@@ -735,12 +754,27 @@ class Machine:
         elif k == 'lock' and out == 'True':
             for i, a in enumerate(w.accounts):
                 if self.acc_pw[i] is None:
-                    self.acc_pw[i] = w.encryption_password
+                    self.acc_pw[i] = self.wallet_pw
                 t = self.truth[i]
                 if t and (a.private_key is not None or (t['seed'] and a.seed == t['seed'])):
                     bad.append(('lock left account %d in plaintext' % i, {'finding': 'lock_leaves_plaintext'}))
+        elif k == 'encrypt' and out == 'True':
+            self.wallet_pw = op['pw']
+            self.enc_expected = True
+            if w.encryption_password != op['pw']:
+                bad.append((f'Wallet.encrypt({op["pw"]!r}) recorded the DIFFERENT password {w.encryption_password!r} as the wallet '
+                            f'password: the file is encrypted under a password the user did not choose',
+                            {'finding': 'encrypt_records_another_password'}))
         elif k in ('reload', 'save_crash', 'start') and out == 'True':
+            self.wallet_pw = None
             self.started_encrypted = k == 'start' and bool(w.is_locked)
+            try:
+                filed = json.load(open(self.path)).get('preferences', {}).get(ENCRYPT_ON_DISK, {})
+                self.enc_expected = bool(filed.get('value')) if isinstance(filed, dict) else False
+            except (OSError, ValueError, AttributeError):
+                self.enc_expected = False
+            if self.started_encrypted and self.pre.get('file_pref') is None:
+                self.enc_expected = True          # an encrypted file older than the preference, brought up by the daemon
             # state comes from the file now
             if k == 'save_crash' and read_file(self.path) is not None and read_file(self.path)['data'] == op.get('_new_file'):
                 self.disk_pw = op['_new_disk_pw']
@@ -750,13 +784,25 @@ class Machine:
             for i, a in enumerate(w.accounts):
                 if not a.encrypted:
                     self.acc_pw[i] = None
-        if (k == 'decrypt' and out == 'True') or (k == 'set_pref' and op['key'] == ENCRYPT_ON_DISK):
-            self.started_encrypted = False           # the user's own choice from here on
+        if k == 'decrypt' and out == 'True':
+            self.started_encrypted, self.enc_expected = False, False
+        if k == 'set_pref' and op['key'] == ENCRYPT_ON_DISK:
+            self.started_encrypted, self.enc_expected = False, bool(op['value'])     # the user's own choice from here on
+        if k in ('save', 'encrypt', 'decrypt', 'start') and out == 'True' and self.enc_expected and self.wallet_pw is None \
+                and not w.is_locked:
+            self.enc_expected = False     # documented: "Disk encryption requested but no password available ... resetting"
         if k in ('save', 'encrypt', 'decrypt', 'start') and out == 'True':
             self.disk_pw = self.pw_on_disk_after_save()
         if k in ('unlock', 'acc_decrypt'):
             idx = range(len(w.accounts)) if k == 'unlock' else [op['i']]
             if out == 'True':
+                if k == 'unlock' and not any(self.pre['enc']) and self.pre['wallet_pw'] is not None \
+                        and op['pw'] != self.pre['wallet_pw']:
+                    bad.append((f'the wallet is unlocked and has the password {self.pre["wallet_pw"]!r}; unlock({op["pw"]!r}) with a '
+                                f'DIFFERENT password answers True (and replaces the password the next save encrypts with)',
+                                {'finding': 'other_password_unlocks_unlocked_wallet'}))
+                if k == 'unlock':
+                    self.wallet_pw = op['pw']
                 for i in idx:
                     a, t = w.accounts[i], self.truth[i]
                     # a password other than the one an account was encrypted with must not open it (an account with
@@ -830,22 +876,26 @@ class Machine:
                             {'finding': 'save_not_atomic', 'n': op['n']}))
         return bad
 
+    def file_pref_value(self):
+        try:
+            e = json.load(open(self.path)).get('preferences', {}).get(ENCRYPT_ON_DISK)
+            return e.get('value') if isinstance(e, dict) else None
+        except (OSError, ValueError, AttributeError):
+            return None
+
     def pw_on_disk_after_save(self):
         """per account, the password its secrets are encrypted under in a file written by save() now"""
         w = self.wallet
-        sealing = w.preferences.get(ENCRYPT_ON_DISK, False) and w.encryption_password
-        if self.started_encrypted and w.encryption_password:
-            sealing = True       # what the property demands of a wallet that came up encrypted (checked by check_file)
-        return [self.acc_pw[i] if a.encrypted else (w.encryption_password if sealing else None)
+        sealing = self.enc_expected and self.wallet_pw is not None      # what the property demands (checked by check_file)
+        return [self.acc_pw[i] if a.encrypted else (self.wallet_pw if sealing else None)
                 for i, a in enumerate(w.accounts)]
 
     def check_file(self):
         w = self.wallet
         bad = []
-        enabled = w.preferences.get(ENCRYPT_ON_DISK, False) or self.started_encrypted
-        # started_encrypted: the daemon came up with this wallet's accounts stored encrypted and the user has not switched
-        # encryption off since: encryption is enabled, whatever the age of the file
-        if not (enabled and w.encryption_password):
+        # encryption is enabled (the monitor's own record, not the wallet object's preference, which a wrong save may have
+        # switched off) and a password is set: ANY string the user gave to a successful encrypt()/unlock(), '' included
+        if not (self.enc_expected and self.wallet_pw is not None):
             return bad
         data = open(self.path, 'rb').read()
         try:
@@ -866,9 +916,11 @@ class Machine:
                     where = strs if len(needle) >= 20 else secret_fields
                     hit = any(needle.decode() in x for x in where)
                 if hit:
-                    how = '' if w.preferences.get(ENCRYPT_ON_DISK, False) else \
-                        ' (the wallet came up through WalletManager.from_lbrynet_config with its accounts stored encrypted, ' \
-                        'was unlocked and saved: the encrypt-on-disk preference was never switched on for this older file)'
+                    how = f' (password {self.wallet_pw!r}; the wallet object now says encrypt-on-disk=' \
+                          f'{w.preferences.get(ENCRYPT_ON_DISK, False)!r})'
+                    if self.started_encrypted and not w.preferences.get(ENCRYPT_ON_DISK, False):
+                        how += ' (the wallet came up through WalletManager.from_lbrynet_config with its accounts stored ' \
+                               'encrypted, was unlocked and saved: the encrypt-on-disk preference was never switched on)'
                     bad.append((f'encryption is on and a password is set, yet the file contains the {what} of account {i}' + how,
                                 {'finding': 'plaintext_secret_on_disk', 'what': what}))
         for a in w.accounts:
@@ -902,7 +954,14 @@ class Machine:
             if diverged:
                 continue      # model and code already differ on this case: only the monitor keeps watching the code
             snap = snapshot(self.wallet, self.path)
-            mres = self.model.call('step', op=self.model_op(op))
+            if op['k'] == 'unlock_during_save':
+                # in the model (as in the repaired code) nothing can run between the decryption and the recording of the
+                # password: the other task's save comes after the unlock
+                m1 = self.model.call('step', op={'k': 'unlock', 'pw': hx(op['pw'])})
+                mres = self.model.call('step', op=dict(self.model_op(op), k='save'))
+                mres['out'] = m1['out']
+            else:
+                mres = self.model.call('step', op=self.model_op(op))
             for i, t in enumerate(self.truth):
                 # an account whose stored ciphertexts were overwritten may come back with ANOTHER valid key; the real manager
                 # keeps the branch it derived from the first key (it caches any non-None result): not compared there
@@ -1292,7 +1351,8 @@ def pack_case(world, model, run, case):
 # generators
 # ------------------------------------------------------------------------------------------------
 
-PASSWORDS = ['x\u00b2=\ufb01ve \u2167', '\uff50\uff41\uff53\uff53\uff11', 'caf\u00e9 au lait', '\u2460\u2461\u2462-secret', '\u212b\u01c6',
+PASSWORDS = [' padded ', 'trailing newline\n', '\u00a0nbsp first', 'ideographic space last\u3000', '\ttab first', 'x ', '\r\nx\r\n',
+             'x\u00b2=\ufb01ve \u2167', '\uff50\uff41\uff53\uff53\uff11', 'caf\u00e9 au lait', '\u2460\u2461\u2462-secret', '\u212b\u01c6',
              'password', 'p', ' ', 'correct horse battery staple', 'pa"ss\\word\n', 'pässwörd', 'pässwörd',
              '密码密码', 'пароль', '🔑🔐', 'pw nbsp', '0', 'x' * 257, 'Aa1!' * 300, '\t tab ', 'é', 'é']
 NAMES = [None, 'Main', 'Счёт №1', 'quote " and \\ backslash', 'tab\tnew\nline', 'emoji 😀 name', 'a' * 300, '\u007f\u0001']
@@ -1329,6 +1389,9 @@ def equivalent_spellings(pw):
 
 
 def other_password(rng, pw):
+    if pw.strip() and pw.strip() != pw and rng.random() < 0.6:
+        # the same password without (some of) its surrounding blanks
+        return rng.choice([x for x in (pw.strip(), pw.rstrip(), pw.lstrip(), pw.strip()) if x and x != pw])
     eq = equivalent_spellings(pw)
     if eq and rng.random() < 0.5:
         return rng.choice(eq)
@@ -1473,8 +1536,11 @@ def gen_machine_case(world, rng, flavour):
         if rng.random() < 0.7:
             touch = [{'k': 'touch_channel', 'i': i} for i in range(nacc)] if rng.random() < 0.7 else []
             restart = {'k': 'start', 'ts': T(), 'rnd': R()} if nacc and rng.random() < 0.5 else {'k': 'reload'}
+            interleaved = rng.random() < 0.5
             ops += [{'k': 'save', 'ts': T(), 'rnd': R()}, restart] + touch + [{'k': 'unlock', 'pw': other_password(rng, pw)},
-                    {'k': 'unlock', 'pw': pw}, {'k': 'save', 'ts': T(), 'rnd': R()}]
+                    ({'k': 'unlock_during_save', 'pw': pw, 'ts': T(), 'rnd': R()} if interleaved else {'k': 'unlock', 'pw': pw}),
+                    {'k': 'unlock', 'pw': other_password(rng, pw)},       # a typo on the now unlocked wallet: refused, no effect
+                    {'k': 'save', 'ts': T(), 'rnd': R()}, {'k': 'reload'}, {'k': 'unlock', 'pw': pw}]
         if rng.random() < 0.5:
             ops += [{'k': 'decrypt', 'ts': T(), 'rnd': R()}, {'k': 'reload'}]
     elif flavour == 'mixed':
@@ -1552,6 +1618,8 @@ def gen_machine_case(world, rng, flavour):
                 ops.append({'k': 'lock', 'rnd': R()})
             elif c < 0.52:
                 ops.append({'k': 'unlock', 'pw': rng.choice([cur, cur, cur, other_password(rng, cur), ''])})
+                if rng.random() < 0.3:
+                    ops[-1].update(k='unlock_during_save', ts=T(), rnd=R())
             elif c < 0.66:
                 ops.append({'k': 'save', 'ts': T(), 'rnd': R()})
             elif c < 0.74:
@@ -1645,7 +1713,8 @@ def main(run):
     S = lambda q, t: vlib.scaled(run.tier, q, t)  # noqa: E731
     run.rule = ('machine cases: 0-3 accounts (seeded with 1/2/12/13/24 English words and odd whitespace, key-only, watch-only, '
                 'single-address, custom gaps, 0-3 channel PEM keys, unicode/escaped names) then an operation sequence of one '
-                'flavour: legacy (accounts stored encrypted, no encrypt-on-disk preference, brought up through the real '
+                'flavour (unlock may have a save() from another task in flight; typos are also tried on the unlocked wallet; the '
+                'blank password is tried wherever the code accepts it): legacy (accounts stored encrypted, no encrypt-on-disk preference, brought up through the real '
                 'WalletManager.from_lbrynet_config, unlocked, saved), lifecycle (restart through from_storage or the daemon '
                 'start-up path; encrypt, lock, wrong password, right password, password change while unlocked then restart, '
                 'save, reload, unlock, decrypt), random walk '
